@@ -257,14 +257,10 @@ func sortCallbacks(cs []*callback) (fns []func(*DB), err error) {
 		names, sorted []string
 		sortCallback  func(*callback) error
 	)
+	// callbacks registered Before("*") or After("*") are sorted last, in registration order
+	star := func(c *callback) bool { return c.before == "*" || c.after == "*" }
 	sort.SliceStable(cs, func(i, j int) bool {
-		if cs[j].before == "*" && cs[i].before != "*" {
-			return true
-		}
-		if cs[j].after == "*" && cs[i].after != "*" {
-			return true
-		}
-		return false
+		return !star(cs[i]) && star(cs[j])
 	})
 
 	for _, c := range cs {
